@@ -306,6 +306,26 @@ func (schemaEngine) Check(prop, tier string, c *runner.Case) *runner.Result {
 		if m := rulesMismatch(cls, fT); m != "" {
 			res.Violate("rule-mismatch", "rule-mismatch:"+cls.Kind+":"+strings.Fields(m)[1], "direct", m+" for "+jx.Trunc(jx.CanonS(tNF), 300))
 		}
+		// the same schema as a program would assemble it: a holder built as &spec.SchemaOrBool{Schema: s} leaves the
+		// redundant Allows flag unset, and serializes to the very same JSON
+		{
+			prog := tSch
+			touched := false
+			if ap := prog.AdditionalProperties; ap != nil && ap.Schema != nil {
+				prog.AdditionalProperties = &spec.SchemaOrBool{Schema: ap.Schema}
+				touched = true
+			}
+			if ai := prog.AdditionalItems; ai != nil && ai.Schema != nil {
+				prog.AdditionalItems = &spec.SchemaOrBool{Schema: ai.Schema}
+				touched = true
+			}
+			if touched {
+				if fp, okp := analyse("assembled-in-go", &prog); okp && fp != fT {
+					res.Violate("construction-dependent", "construction-dependent", "assembled-in-go", fmt.Sprintf("loaded from JSON %+v vs assembled in Go (same JSON) %+v", fT, fp))
+				}
+				res.Ev("assembled_in_go_twins", 1)
+			}
+		}
 		w1 := spec.RefSchema("#/definitions/T")
 		f1, ok1 := analyse("ref", w1)
 		w2 := spec.RefSchema("#/definitions/W1")
